@@ -53,7 +53,10 @@ def main():
         if rc != 0:
             out['apply_error'] = o[-300:]
         else:
-            missing = baseline(tree)
+            if os.environ.get('SEED_SKIP_BASELINE'):
+                missing = None       # (regression runs: the baseline was confirmed when the change was accepted)
+            else:
+                missing = baseline(tree)
             out['baseline_missing'] = missing
             rc, o = sh('/venv/bin/python %s' % demo, cwd=tree, timeout=600)
             out['demo_patched_rc'] = rc
